@@ -141,5 +141,23 @@ def belowThreshold (r1 r2 : α) (thr : Option (Ext α)) : Bool :=
   | none => false
   | some t => Ext.lt (.fin (fmax r1 r2)) t
 
+/-- one iteration of a solver: `(iteration number, state, draw log) ↦ (state, bound one, bound two, draw log)` -/
+abbrev IterFn (α : Type) := Nat → SolveSt α → List (DrawRec α) → SolveSt α × α × α × List (DrawRec α)
+
+/-- the `for it in 1..=max_iter` loop shared by all solvers, with its `break`:
+`n` iterations remain, `it` is the number of the next one -/
+def solveLoop (step : IterFn α) (thr : Option (Ext α)) :
+    Nat → Nat → SolveSt α → Ext α → Ext α → List (DrawRec α) → SolveOut α
+  | 0, it, s, r1, r2, log => ⟨r1, r2, s.avg true, s.avg false, it - 1, log⟩
+  | n + 1, it, s, _, _, log =>
+    match step it s log with
+    | (s, r1, r2, log) =>
+      if belowThreshold r1 r2 thr then ⟨.fin r1, .fin r2, s.avg true, s.avg false, it, log⟩
+      else solveLoop step thr n (it + 1) s (.fin r1) (.fin r2) log
+
+/-- a whole solve from the initial state -/
+def solveWith (g : Game α) (step : IterFn α) (maxIter : Nat) (thr : Option (Ext α)) : SolveOut α :=
+  solveLoop step thr maxIter 1 (SolveSt.init g) .posInf .posInf []
+
 end
 end Cfr
